@@ -154,7 +154,7 @@ func (r *realRepo) cmdFor(t *target) string {
 	case "catn":
 		return pre + "for f in $SRCS; do echo $f; " + catBody + "; done > $OUT"
 	case "opt":
-		return pre + "for f in $SRCS; do " + catBody + "; done > $OUT; if [ -s $OUT ]; then cp $OUT $OUT.extra; fi"
+		return pre + "for f in $SRCS; do " + catBody + "; done > $OUT; if grep -q hello $OUT; then cp $OUT $OUT.extra; fi"
 	}
 	panic("kind " + t.Kind)
 }
